@@ -16,7 +16,7 @@ def run(ctx):
                'ChaCha20-Poly1305: ghost kernels (Poly1305 input stream recorder, uninterpreted keystream of the position); the scalar Poly1305 block step is decided in C02')
     ctx.outside += ['AES-GCM / GMAC / GHASH (stitched CTR+GHASH kernels, var-IV J0 derivation), SNOW-V-AEAD, SM4-GCM, DOCSIS-BPI with CRC32, PON AES-CTR with CRC/BIP: none of their kernels is encoded '
                     '(GF(2^128) multiplication via PCLMULQDQ against a specification needs algebra the uninterpreted-function encoding cannot express; concrete-key co-simulation would be testing, not a solver verdict)',
-                    'AES-CCM decrypt direction (authenticated payload taken from dst) and the aes_cntr_ccm_* cipher kernels; CCM payloads above 100 (thorough 257) bytes',
+                    'the aes_cntr_ccm_* cipher kernels; CCM payloads above 100 (thorough 257) bytes',
                     'what the ChaCha20 and Poly1305 SIMD kernels compute (C01/C02 say what is covered there)']
     ctx.samples.append('AES-128-CCM, payload 33, AAD 17, nonce 8, tag 6 on the VAES x16 manager: tag == leading 6 bytes of CBC-MAC(B0 | len(AAD) AAD pad | payload pad) xor E(A0), for all payload/AAD/nonce/key bytes')
 
